@@ -53,6 +53,18 @@ CLAIMED = {
              "the instantiated query is reported only when the native replay confirms it. DelayManager.clear and the "
              "Timer device are not yet under contract.",
         ref="4.C13"),
+    "C03": dict(
+        text="process_switch_obj proved for every report (raw/logical, NO/NC, duplicate): logical state = report "
+             "(inverted for raw NC), duplicates invoke nothing and change nothing, a real change time-stamps, mirrors "
+             "the hardware state, cancels pending timed handlers and then dispatches exactly once (unless muted); "
+             "is_state/is_active/is_inactive; add_switch_handler_obj registers exactly one entry and arms a handler "
+             "added mid-interval for the ORIGINAL deadline iff it is still ahead. remove_switch_handler_obj (a removed "
+             "handler never fires) is checked by the same engine on bounded lists (labelled bounded).",
+        note="Trusted: pyvc encoding, z3, reals for times, loop clock. _call_handlers, _add_timed_switch_handler, "
+             "_cancel_timed_handlers, _process_active_timed_switches are assumed contracts at their call sites (not yet "
+             "verified); Switch._post_events not under contract. Bounded: remove_switch_handler_obj with 2 registered "
+             "handlers per state and 2x3 timed entries (symbolic contents) - not counted as proved.",
+        ref="4.C03"),
 }
 
 NA = {}
